@@ -575,3 +575,16 @@ Example sound_example_arr_real :
   in_frag ex_arr_real = true /\ tc ex_arr_real = Some TBool /\ div_safe I0 ex_arr_real /\
   simplify_opt no_oracle ex_arr_real = Some TTrue.
 Proof. split; [reflexivity|]. split; [reflexivity|]. split; [|reflexivity]. cbn. tauto. Qed.
+
+(* Pow with a negative integer constant exponent on a base that simplifies to a non-zero constant *)
+(* Pow with a negative integer constant exponent on a base that simplifies to a non-zero constant *)
+Definition ex_pow_neg : term :=
+  let x := TSym "x" TInt in let r := TSym "r" TReal in
+  T OAnd [T OEquals [T OPow [T OIte [TTrue; TIntC 2; x]; TIntC (-3)]; TRealC 1 8];
+          T OEquals [T OPow [T OIte [TTrue; TRealC (-2) 3; r]; TRealC (-2) 1]; TRealC 9 4];
+          T OLe [T OPow [r; TRealC (-1) 1]; T OPow [r; TRealC (-1) 1]]].
+Example sound_example_pow_neg :
+  in_frag ex_pow_neg = true /\ tc ex_pow_neg = Some TBool /\ div_safe I0 ex_pow_neg /\
+  simplify_opt no_oracle ex_pow_neg =
+    Some (T OLe [T OPow [TSym "r" TReal; TRealC (-1) 1]; T OPow [TSym "r" TReal; TRealC (-1) 1]]).
+Proof. split; [reflexivity|]. split; [reflexivity|]. split; [|reflexivity]. cbn. tauto. Qed.
